@@ -28,7 +28,7 @@ def adversarial_doc(rng):
 class C02(PropCheck):
     id = 'C02'
     extractors = ()
-    modules = ('WpModel.Props.C02',)
+    modules = ('WpModel.Props.C02', 'WpModel.Props.C02Pm2')
     trusted_base = (
         'modelled, not verified: the pagination functions of block.py / page.py (see C01); everything outside the '
         'model (inline layout, tables, flex, grid, drawing, PDF writing) is exercised only by the sampled totality runs',
